@@ -31,48 +31,48 @@ pub fn part_for(prop: &str, tier: Tier) -> E2Part {
             name: "crash-kill",
             bias: base,
             lenses: E2Lenses { recover: true, ..Default::default() },
-            quick_cases: 10,
-            thorough_factor: 20,
+            quick_cases: 25,
+            thorough_factor: 10,
             rule: "E2 epoch chains (1-3 epochs of 3-12 ops: puts incl. large contents and a 9000-byte key, remove, remove_range, checkpoint, in-process reopen; N in {1,2,3,5,100}; both sync modes; optional orphan clean-up after open); a worker process runs each epoch under the LD_PRELOAD trace shim; EVERY state between two mutating filesystem calls (incl. first-time initialisation, recovery replay, after-replay checkpoint, pruning) is reconstructed and opened in-process with recovery+verification: open must succeed, the recovered map must equal the acknowledged ops with the in-flight op applied completely or not at all, every get must return the model bytes, no missing/corrupted blobs; chains continue from a generated crash image. evaluations = images opened; non-trivial = cut strictly inside an op or inside initialisation/recovery/clean-up; distinct by (case hash, epoch, cut)",
         },
         "C09" => E2Part {
             name: "power-loss",
             bias: E2Bias { sync_only: true, big: 5, ..base },
             lenses: E2Lenses { powerloss: true, ..Default::default() },
-            quick_cases: 8,
-            thorough_factor: 20,
+            quick_cases: 25,
+            thorough_factor: 10,
             rule: "E2 epoch chains in Sync mode; for every state between two filesystem calls (mutating or sync) and EVERY non-empty subset of the files that hold bytes not yet covered by fsync/fdatasync, the image in which those files are rolled back to their last synced bytes (directory operations kept) is opened with recovery+verification and judged with the C03 oracle; chains continue from the image that loses everything unsynced. evaluations = power-loss images opened; non-trivial = the lost set contains a CAS blob, a live WAL segment or the index (not just private temp files); distinct by (case hash, epoch, cut, subset)",
         },
         "C06" => E2Part {
             name: "crash-cashash",
             bias: E2Bias { big: 6, max_epochs: 2, ..base },
             lenses: E2Lenses { cashash: true, ..Default::default() },
-            quick_cases: 4,
-            thorough_factor: 20,
+            quick_cases: 8,
+            thorough_factor: 10,
             rule: "E2: at every kill cut every file under cas/ must be at a canonical path and hash to it; the trace must never open a path under cas/ with write access; non-trivial = cut inside an op; distinct by (case, epoch, cut)",
         },
         "C08" => E2Part {
             name: "crash-orphans",
             bias: E2Bias { max_epochs: 2, ..base },
             lenses: E2Lenses { orphan: true, ..Default::default() },
-            quick_cases: 4,
-            thorough_factor: 20,
+            quick_cases: 8,
+            thorough_factor: 10,
             rule: "E2: every kill image is opened with open_with_recover(verify on); OrphanStats (orphaned, missing, corrupted, invalid, staging, total_blobs) must equal an independent diff of the directory against the recovered key map; delete_orphans must report matching counters, leave no orphan/invalid/staging file and not change any referenced blob; non-trivial = cut inside an op or inside recovery/clean-up; distinct by (case, epoch, cut)",
         },
         "C12" => E2Part {
             name: "crash-stats",
             bias: E2Bias { max_epochs: 2, big: 1, ..base },
             lenses: E2Lenses { stats: true, ..Default::default() },
-            quick_cases: 3,
-            thorough_factor: 20,
+            quick_cases: 6,
+            thorough_factor: 10,
             rule: "E2: after recovery of every kill image known_blobs/refcounts/stats/sizes must be consistent with the recovered key map and the blob files; non-trivial = cut inside an op or recovery; distinct by (case, epoch, cut)",
         },
         "C20" => E2Part {
             name: "crash-ondisk",
             bias: E2Bias { big: 1, ..base },
             lenses: E2Lenses { ondisk: true, ..Default::default() },
-            quick_cases: 4,
-            thorough_factor: 20,
+            quick_cases: 8,
+            thorough_factor: 10,
             rule: "E2: at every kill cut (every syscall boundary) the independent reader must parse index and all segments strictly, versions in order/range and never reused along the chain, and snapshot+log must decode to the acknowledged history with the in-flight op applied or not; non-trivial = cut inside an op or recovery; distinct by (case, epoch, cut)",
         },
         other => panic!("harness: no E2 part for {other}"),
